@@ -21,6 +21,12 @@ class OptimizeLoadAfterStoreVisitor(Visitor.DefaultVisitor):
 
             # The previous instruction is a store to the same variable. Replace
             # ourselves with the value that was stored
+            # Arrays and structures are copied by the store and are written
+            # in place afterwards, so the stored value must not stand in for
+            # the variable's own copy
+            if not vai.Type.IsPrimitive():
+                return
+
             if previous.Variable == vai.Variable and previous.Store is not None:
                 # Remove all uses of this instruction with the value that was
                 # stored
